@@ -105,10 +105,10 @@ pub fn fnv(data: &[u8]) -> u64 {
 }
 
 pub fn fnv_mix(h: u64, x: u64) -> u64 {
-    let mut h = h;
-    for b in x.to_le_bytes() {
-        h ^= b as u64;
-        h = h.wrapping_mul(0x0000_0100_0000_01B3);
+    let mut out: u64 = 0xcbf2_9ce4_8422_2325;
+    for b in h.to_le_bytes().into_iter().chain(x.to_le_bytes()) {
+        out ^= b as u64;
+        out = out.wrapping_mul(0x0000_0100_0000_01B3);
     }
-    h
+    out
 }
